@@ -17,7 +17,8 @@ RULE = ('exhaustive at the tier bound: every span of length 0..N (quick N=6 on V
         '(plus 0 and negative steps on a subset) x get and set (scalar, one-element and full-length sequence, wrong-length sequence); '
         'pandas partial-string labels (slice-valued locations); spans with duplicate labels; positional and whole-series writes read back '
         'through every path; names that are no variables (incl. attributes / strict) on the tuple-key read and write paths; backticked label slices through eval(); histories (the same labels looked up first on a sibling container where they '
-        'sit at other positions). Non-trivial = span of at least 2 periods and (an exception path or at '
+        'sit at other positions; on ONE object: lookups, then obj.span = <span of the same length: shifted window, reversed, other type>, then the access; a '
+        'successful slice read, reads with a missing end point, then the access). Non-trivial = span of at least 2 periods and (an exception path or at '
         'least one element addressed); distinct by hash of the whole case.')
 TRUSTED = ['label encoding harness/locate_common.py (Python equality of labels = structural equality of the canonical code)',
            'pandas get_loc / __contains__ answers are recorded per case and handed to the model as its oracle table; for period_range and '
@@ -61,13 +62,34 @@ def _make(case):
     n = len(span)
     data = [float(10 + i) for i in range(n)]
     other = [float(50 + i) for i in range(n)]
+    # history on the SAME object: it is built on another span of the same length (span0), every label of that span is looked up
+    # (label, slice, locate), then the span is reassigned (obj.span = span) - nothing remembered may survive the reassignment
+    first = lc.build_span(case['span0']) if case.get('span0') else span
     if case['cls'] == 'VC':
-        c = fsic.core.containers.VectorContainer(span)
+        c = fsic.core.containers.VectorContainer(first)
         c.add_variable('X', data)
         c.add_variable('Y', other)
     else:
         M = type('M', (fsic.BaseModel,), {'ENDOGENOUS': ['X'], 'EXOGENOUS': ['Y'], 'NAMES': ['X', 'Y'], 'CHECK': ['X']})
-        c = M(span, X=data, Y=other)
+        c = M(first, X=data, Y=other)
+    if case.get('span0'):
+        for p in list(first):
+            for f in (lambda: c['X', p], lambda: c['X', p:p], lambda: c['X', p:], lambda: c._locate_period_in_span(p)):
+                try:
+                    f()
+                except Exception:
+                    pass
+        try:
+            c['X', :]
+        except Exception:
+            pass
+        c.span = span
+    # earlier READS on the same object (each may fail): a good slice, then a slice with a missing end point, ... leave no trace
+    for k in case.get('pre_reads', []):
+        try:
+            c['X', _key(k)]
+        except Exception:
+            pass
     return span, c
 
 
@@ -598,10 +620,11 @@ def bucket(case, obs):
 
 def shrink_candidates(case):
     op = case['op']
-    if case.get('prior'):
-        c = copy.deepcopy(case)
-        del c['prior']
-        yield c
+    for k in ('prior', 'span0', 'pre_reads'):
+        if case.get(k):
+            c = copy.deepcopy(case)
+            del c[k]
+            yield c
     if 'key' in op and 'slice' in op['key']:
         for i in range(3):
             if op['key']['slice'][i] is not None:
@@ -799,9 +822,57 @@ def history_cases():
     return out
 
 
+def history_cases2():
+    """histories on ONE object: (1) lookups on span0, span reassigned to a span of the same length (shifted window, reversed, other
+    type), then the access; (2) a successful slice read, then reads with a missing end point, then the access"""
+    out = []
+    strs = lambda t: [['s', x] for x in t]
+    groups = [({'type': 'range', 'start': 2000, 'step': 1, 'n': 4}, [{'type': 'range', 'start': 2001, 'step': 1, 'n': 4}, {'type': 'range', 'start': 1999, 'step': 1, 'n': 4},
+                                                                      {'type': 'range', 'start': 2003, 'step': -1, 'n': 4}, {'type': 'list', 'labels': [['i', 2003 - i] for i in range(4)]}]),
+              ({'type': 'list', 'labels': strs('abcd')}, [{'type': 'list', 'labels': strs('bcde')}, {'type': 'list', 'labels': strs('dcba')}, {'type': 'tuple', 'labels': strs('cdab')},
+                                                           {'type': 'nparr', 'labels': strs('bcda')}]),
+              ({'type': 'nparr', 'labels': [['i', 5 + i] for i in range(4)]}, [{'type': 'nparr', 'labels': [['i', 6 + i] for i in range(4)]}, {'type': 'nparr', 'labels': [['i', 8 - i] for i in range(4)]},
+                                                                                 {'type': 'list', 'labels': [['i', 4 + i] for i in range(4)]}]),
+              ({'type': 'pdindex', 'labels': [['i', 5 + 2 * i] for i in range(4)]}, [{'type': 'pdindex', 'labels': [['i', 7 + 2 * i] for i in range(4)]}, {'type': 'pdindex', 'labels': [['i', 11 - 2 * i] for i in range(4)]}]),
+              ({'type': 'period', 'freq': 'Q', 'start': PER_Q0, 'n': 4}, [{'type': 'period', 'freq': 'Q', 'start': PER_Q0 + 1, 'n': 4}, {'type': 'period', 'freq': 'Q', 'start': PER_Q0 - 2, 'n': 4}]),
+              ({'type': 'datetime', 'freq': 'D', 'start': TS_D0, 'n': 4}, [{'type': 'datetime', 'freq': 'D', 'start': TS_D0 + 86400 * 10 ** 9, 'n': 4}])]
+    for span0, targets in groups:
+        for spec in targets + [span0]:
+            labs = lc.span_labels(spec)
+            absent = [j for j in lc.span_labels(span0) if lc.canon(j) not in [lc.canon(x) for x in labs]][:2] + absent_labels(spec)[:1]
+            for cls in ('VC', 'BM'):
+                base = {'span': spec, 'cls': cls}
+                if spec is not span0:
+                    base['span0'] = span0
+                else:
+                    continue
+                for j in labs + absent:
+                    out.append(dict(base, op={'kind': 'get', 'key': {'label': j}}))
+                    out.append(dict(base, op={'kind': 'set', 'key': {'label': j}, 'w': {'scalar': 99}}))
+                    out.append(dict(base, op={'kind': 'locate', 'label': j}))
+                for a, b in itertools.product([None] + labs + absent[:1], repeat=2):
+                    out.append(dict(base, op={'kind': 'get', 'key': {'slice': [a, b, 2]}}))
+                    out.append(dict(base, op={'kind': 'set', 'key': {'slice': [a, b, None]}, 'w': {'scalar': 99}}))
+    # good slice, bad slice(s), then the access
+    for spec in [g[0] for g in groups]:
+        labs = lc.span_labels(spec)
+        miss = absent_labels(spec)[0]
+        good = {'slice': [labs[0], labs[2], None]}
+        for bad in ({'slice': [labs[1], miss, None]}, {'slice': [miss, labs[2], None]}, {'slice': [labs[1], miss, 2]}):
+            for pre in ([good, bad], [good, bad, bad], [bad, good, bad]):
+                for cls in ('VC', 'BM'):
+                    base = {'span': spec, 'cls': cls, 'pre_reads': pre}
+                    out.append(dict(base, op={'kind': 'get', 'key': bad}))
+                    out.append(dict(base, op={'kind': 'set', 'key': bad, 'w': {'scalar': 99}}))
+                    out.append(dict(base, op={'kind': 'get', 'key': good}))
+                    out.append(dict(base, op={'kind': 'get', 'key': {'label': miss}}))
+                    out.append(dict(base, op={'kind': 'get', 'key': {'slice': [labs[3], labs[3], None]}}))
+    return out
+
+
 def gen(rng, tier):
     nvc, nbm = (6, 3) if tier == 'quick' else (9, 7)
-    cases = history_cases()
+    cases = history_cases() + history_cases2()
     for spec in span_specs(nvc, monthly=tier != 'quick'):
         cases += cases_for_span(spec, 'VC', rng, 1 if tier == 'quick' else 2)
     for spec in span_specs(nbm):
